@@ -1,31 +1,46 @@
 #!/usr/bin/env python3
-"""Apply each confirmed seeded mutation to /repo, run the property's quick check, undo it straight afterwards.
+"""Apply each confirmed seeded mutation to a scratch copy of /repo's HEAD (never to /repo itself: an interrupted run once
+left a seeded change in /repo's working tree), run the property's quick check on that copy (VX_REPO / VX_WORK / VX_EVID),
+remove the copy.  Eight seeds at a time, each in its own scratch directory under /var/tmp.
 usage: run_seeded.py [seed-dir-name ...]   (default: all under /verif/seeded)   writes /verif/seeded/RESULTS.json"""
-import json, os, subprocess, sys
+import json, os, shutil, subprocess, sys
+from concurrent.futures import ThreadPoolExecutor
 ROOT = '/verif'
 names = sys.argv[1:] or sorted(d for d in os.listdir(ROOT + '/seeded') if os.path.isdir(ROOT + '/seeded/' + d))
+names = [n for n in names if os.path.exists(os.path.join(ROOT, 'seeded', n, 'meta.json'))]
 res = json.load(open(ROOT + '/seeded/RESULTS.json')) if os.path.exists(ROOT + '/seeded/RESULTS.json') else {}
-for n in names:
+
+
+def one(n):
     d = os.path.join(ROOT, 'seeded', n)
-    if not os.path.exists(d + '/meta.json'):
-        continue
     meta = json.load(open(d + '/meta.json'))
     prop = meta['property']
-    assert subprocess.run(['git', '-C', '/repo', 'status', '--porcelain'], capture_output=True, text=True).stdout.strip() == '', '/repo not clean'
-    a = subprocess.run(['git', '-C', '/repo', 'apply', d + '/patch.diff'], capture_output=True, text=True)
-    if a.returncode != 0:
-        res[n] = dict(property=prop, applied=False, err=a.stderr[-300:])
-        print(n, 'patch does not apply'); continue
+    scr = '/var/tmp/vx-seeded-%d-%s' % (os.getpid(), n)
+    shutil.rmtree(scr, ignore_errors=True)
+    os.makedirs(scr + '/repo')
     try:
-        extra = meta.get('also_check', [])
+        subprocess.run('git -C /repo archive HEAD | tar -x -C %s/repo && git -C %s/repo init -q .' % (scr, scr), shell=True, check=True)
+        a = subprocess.run(['git', '-C', scr + '/repo', 'apply', d + '/patch.diff'], capture_output=True, text=True)
+        if a.returncode != 0:
+            print(n, 'patch does not apply', flush=True)
+            return n, dict(property=prop, applied=False, err=a.stderr[-300:])
+        env = dict(os.environ, VX_REPO=scr + '/repo', VX_WORK=scr + '/work', VX_EVID=scr + '/evid')
         out = {}
-        for p in [prop] + extra:
-            r = subprocess.run([ROOT + '/check', p], capture_output=True, text=True, cwd=ROOT)
-            lines = [l for l in r.stdout.split('\n') if l.startswith(('VIOLATION', 'UNDECIDED', 'KNOWN', 'OK'))]
+        for p in [prop] + meta.get('also_check', []):
+            r = subprocess.run([ROOT + '/check', p], capture_output=True, text=True, cwd=ROOT, env=env)
+            lines = [l.replace(scr, '<scratch>') for l in r.stdout.split('\n') if l.startswith(('VIOLATION', 'UNDECIDED', 'KNOWN', 'OK'))]
             out[p] = dict(exit=r.returncode, lines=lines[:8])
-        res[n] = dict(property=prop, applied=True, checks=out, detected=any(v['exit'] == 1 for v in out.values()))
-        print(n, {p: v['exit'] for p, v in out.items()}, [l[:160] for v in out.values() for l in v['lines'][:3]])
+        print(n, {p: v['exit'] for p, v in out.items()}, [l[:160] for v in out.values() for l in v['lines'][:3]], flush=True)
+        return n, dict(property=prop, applied=True, checks=out, detected=any(v['exit'] == 1 for v in out.values()))
     finally:
-        subprocess.run(['git', '-C', '/repo', 'checkout', '--', '.'], check=True)
+        shutil.rmtree(scr, ignore_errors=True)
+
+
+with ThreadPoolExecutor(8) as ex:
+    for n, r in ex.map(one, names):
+        res[n] = r
         json.dump(res, open(ROOT + '/seeded/RESULTS.json', 'w'), indent=1, sort_keys=True)
-json.dump(res, open(ROOT + '/seeded/RESULTS.json', 'w'), indent=1, sort_keys=True)
+print('detected %d / %d applied, exit 2 only: %d, quiet: %d' % (
+    sum(1 for r in res.values() if r.get('detected')), sum(1 for r in res.values() if r.get('applied')),
+    sum(1 for r in res.values() if r.get('applied') and not r.get('detected') and any(v['exit'] == 2 for v in r['checks'].values())),
+    sum(1 for r in res.values() if r.get('applied') and all(v['exit'] == 0 for v in r['checks'].values()))))
